@@ -25,6 +25,7 @@ EXPLANATION = (
     "starts at the offset split_dataset computed, is read with the same size limits as in-memory "
     "fragments and may only travel on a context with exactly the file's transfer syntax "
     "(allow_conversion=False). Not decided: equality of decoded data sets for all VRs and values."
+    " Fourth session: (bytes-complete) borrowed from C03's recv-exact; (mode-decided-once) the receive-mode flag is read only where the data set is received; C15's file-offset."
 )
 
 
